@@ -591,6 +591,8 @@ func BuildFromAliasedTable(query *Query, as string, expr sqlparser.SimpleTableEx
 			}
 			alias := ProcessAlias(array, as)
 			query.from = alias
+			// a join identifies its sides by this name
+			query.ident = as
 			return nil
 		}
 	default:
